@@ -10,6 +10,8 @@ SCAL = [0, 1, 2, 7, -3, True, False, "x", "y", "z", "", "1", "true", 0.5, 1.5, 2
         2 ** 31, 2 ** 32, -2 ** 31 - 1, 4294967296000, 2 ** 53 + 1, 2 ** 62,
         # neighbours beyond 2^53: equal as float64, different as integers
         2 ** 53, 2 ** 53 + 2, 2 ** 63 - 1, 2 ** 63 - 2, -2 ** 63, -2 ** 63 + 1,
+        # integral floats between 2^53 and 2^63 and beyond (a writer that prints them without a fraction turns them into integers)
+        1e16, 4e18, -1e17, 1e19, 2.0 ** 53,
         # strings ending in one, two, three newlines (YAML block scalars with clip / keep chomping: the trailing blank lines ARE the value,
         # also at the very end of the emitted text)
         "x\n", "x\n\n", "l1\nl2\n\n\n", "two\n\nparas\n\n"]
